@@ -22,6 +22,12 @@ type C09Case struct {
 	Text  string   `json:"text"`
 	Back  int      `json:"back"`
 	Steps []C09Op  `json:"steps"`
+	// walk commands of a second Readline call on the same shell (may be empty)
+	Second []string `json:"second,omitempty"`
+	// revert-all-at-newline: on = edits of visited entries are dropped when a line is accepted
+	Revert bool `json:"revert,omitempty"`
+
+	firstRet string
 }
 
 type C09Op struct {
@@ -86,13 +92,32 @@ func genC09(t *rapid.T) *C09Case {
 		}
 	}
 
+	if rapid.IntRange(0, 2).Draw(t, "second") > 0 {
+		c.Revert = rapid.Bool().Draw(t, "revert")
+
+		for i := rapid.IntRange(2, 10).Draw(t, "nsecond"); i > 0; i-- {
+			c.Second = append(c.Second, rapid.SampledFrom([]string{"previous-history", "previous-history", "previous-history", "next-history", "up-line-or-history", "down-line-or-history",
+				"beginning-of-history", "end-of-history"}).Draw(t, "walk2"))
+		}
+	}
+
 	return c
 }
 
 func runC09(h *Harness, child *rig.Child, c *C09Case) (*Failure, bool) {
 	e := h.env()
 	names := append(append([]string{"backward-char", "accept-line"}, c09Walk...), c09Search...)
-	spec := &proto.Spec{Calls: 1, Inputrc: renderVars(c.Mode, [][2]string{{"convert-meta", "off"}, {"input-meta", "on"}, {"output-meta", "on"}}),
+	calls := 1
+	if len(c.Second) > 0 {
+		calls = 2
+	}
+
+	vars := [][2]string{{"convert-meta", "off"}, {"input-meta", "on"}, {"output-meta", "on"}}
+	if c.Revert {
+		vars = append(vars, [2]string{"revert-all-at-newline", "on"})
+	}
+
+	spec := &proto.Spec{Calls: calls, Inputrc: renderVars(c.Mode, vars),
 		Prompt: &proto.PromptSpec{Primary: "> "}, Binds: e.bindNames(names, mainKeymaps...), LogCmds: true,
 		Hist: []proto.HistSpec{{Kind: "mem", Name: "h", Entries: c.Hist}}}
 
@@ -373,76 +398,9 @@ func runC09(h *Harness, child *rig.Child, c *C09Case) (*Failure, bool) {
 		}
 
 		// (a) walk model over the set of possible positions
-		next := map[int]bool{}
-		stay := false
-
-		for p := range P {
-			switch op.Cmd {
-			case "previous-history":
-				if n > 0 {
-					if p == n {
-						nontrivial = true
-					}
-
-					next[min(p+1, n)] = true
-				} else {
-					next[p] = true
-				}
-			case "next-history":
-				if p == 0 {
-					nontrivial = true
-				}
-
-				next[max(p-1, 0)] = true
-			case "beginning-of-history":
-				if n > 0 {
-					next[n] = true
-				} else {
-					next[p] = true
-				}
-			case "end-of-history":
-				next[0] = true
-
-				if n > 0 {
-					next[1] = true
-				}
-
-				if n == 0 {
-					next[p] = true
-				}
-			case "up-line-or-history":
-				stay = true
-
-				if n > 0 {
-					next[min(p+1, n)] = true
-				} else {
-					next[p] = true
-				}
-			case "down-line-or-history":
-				stay = true
-				next[max(p-1, 0)] = true
-			case "beginning-of-buffer-or-history":
-				stay = true
-
-				if n > 0 {
-					next[n] = true
-				} else {
-					next[p] = true
-				}
-			case "end-of-buffer-or-history":
-				stay = true
-				next[0] = true
-
-				if n > 0 {
-					next[1] = true
-				}
-			}
-		}
-
-		if stay {
-			for p := range P {
-				next[p] = true
-			}
+		next, nt := c09WalkStep(op.Cmd, P, n)
+		if nt {
+			nontrivial = true
 		}
 
 		filtered := map[int]bool{}
@@ -490,7 +448,197 @@ func runC09(h *Harness, child *rig.Child, c *C09Case) (*Failure, bool) {
 		return nil, nontrivial
 	}
 
-	return c09Sources(c, d.st.Ev), nontrivial
+	if f := c09Sources(c, d.st.Ev); f != nil {
+		return f, nontrivial
+	}
+
+	// With revert-all-at-newline off the library keeps the texts edits left on
+	// visited entries; when the model was switched off (an incremental search
+	// put its match into whatever was shown) those texts are not all known and
+	// the second call cannot be judged.
+	if len(c.Second) > 0 && !d.st.Ev.HasErr && (c.Revert || modelOn) {
+		c.firstRet = d.st.Ev.Line
+
+		// edited texts by index in the source (oldest = 0); readline keeps them
+		// across calls unless revert-all-at-newline is on
+		kept := map[int]map[string]bool{}
+
+		if !c.Revert {
+			for p, v := range versions {
+				if p > 0 {
+					kept[n-p] = v
+				}
+			}
+		}
+
+		if f := c09SecondCall(d, e, c, d.st.Ev.Hist[0], kept); f != nil {
+			return f, true
+		}
+
+		if !P[0] || len(P) > 1 {
+			nontrivial = true // accepted while on a history entry, then walked again
+		}
+	}
+
+	return nil, nontrivial
+}
+
+// c09WalkStep: the positions a walk command may lead to from the possible
+// positions P in a history of n entries (position 0 = the line being typed,
+// p = the p-th newest entry). Where the statement is silent every reading is
+// kept: end-of-history may mean position 0 or 1, the *-line-or-history and
+// *-buffer-or-history commands may move inside the buffer instead.
+func c09WalkStep(cmd string, P map[int]bool, n int) (next map[int]bool, nontrivial bool) {
+	next = map[int]bool{}
+	stay := false
+
+	for p := range P {
+		switch cmd {
+		case "previous-history":
+			if n > 0 {
+				if p == n {
+					nontrivial = true
+				}
+
+				next[min(p+1, n)] = true
+			} else {
+				next[p] = true
+			}
+		case "next-history":
+			if p == 0 {
+				nontrivial = true
+			}
+
+			next[max(p-1, 0)] = true
+		case "beginning-of-history":
+			if n > 0 {
+				next[n] = true
+			} else {
+				next[p] = true
+			}
+		case "end-of-history":
+			next[0] = true
+
+			if n > 0 {
+				next[1] = true
+			}
+
+			if n == 0 {
+				next[p] = true
+			}
+		case "up-line-or-history":
+			stay = true
+
+			if n > 0 {
+				next[min(p+1, n)] = true
+			} else {
+				next[p] = true
+			}
+		case "down-line-or-history":
+			stay = true
+			next[max(p-1, 0)] = true
+		case "beginning-of-buffer-or-history":
+			stay = true
+
+			if n > 0 {
+				next[n] = true
+			} else {
+				next[p] = true
+			}
+		case "end-of-buffer-or-history":
+			stay = true
+			next[0] = true
+
+			if n > 0 {
+				next[1] = true
+			}
+		}
+	}
+
+	if stay {
+		for p := range P {
+			next[p] = true
+		}
+	}
+
+	return next, nontrivial
+}
+
+// c09SecondCall: the application calls Readline again on the same shell; the
+// history is now what the first call left in the source, nothing has been typed,
+// and walking must show exactly those entries, newest first (or, with
+// revert-all-at-newline off, a text an edit left on that entry in the first call).
+func c09SecondCall(d *drive, e *Env, c *C09Case, hist []string, kept map[int]map[string]bool) *Failure {
+	st := d.s.Next()
+	if f := stopFailure(st); f != nil {
+		return f
+	}
+
+	if st.Kind != "park" {
+		return &Failure{Clause: "infra", Msg: "second call did not park: " + st.String(), Infra: true}
+	}
+
+	d.st = st
+	d.parks = append(d.parks, st.Ev)
+
+	if st.Ev.Line != "" {
+		return nil // a held line: not this clause's subject
+	}
+
+	n := len(hist)
+	slot := func(p int) string {
+		if p == 0 {
+			return ""
+		}
+
+		return hist[n-p]
+	}
+
+	P := map[int]bool{0: true}
+	done := []string{}
+
+	for _, cmd := range c.Second {
+		done = append(done, cmd)
+
+		ev := d.send([]byte(e.key(cmd)))
+		if d.fail != nil {
+			d.fail.Msg = fmt.Sprintf("second call, after %v: %s", done, d.fail.Msg)
+			return d.fail
+		}
+
+		if ev == nil {
+			return nil
+		}
+
+		if strings.Contains(ev.Hint, "history error") {
+			return failf("history-error", "c09:history-error", "second call, after %v: the library reports %q", done, ev.Hint)
+		}
+
+		next, _ := c09WalkStep(cmd, P, n)
+		filtered := map[int]bool{}
+
+		for p := range next {
+			if slot(p) == ev.Line || (p > 0 && kept[n-p][ev.Line]) {
+				filtered[p] = true
+			}
+		}
+
+		if len(filtered) == 0 {
+			want := []string{}
+			for p := range next {
+				want = append(want, fmt.Sprintf("slot %d = %q %v", p, slot(p), keysStr(kept[n-p])))
+			}
+
+			sort.Strings(want)
+
+			return failf("walk-model", "c09:walk2:"+cmd, "second Readline call on the same shell (the first returned %q; the source now holds %q), after %v: %s shows %q; by the walk model (positions before: %v) it must show one of: %s",
+				c.firstRet, hist, done, cmd, ev.Line, keysInt(P), strings.Join(want, ", "))
+		}
+
+		P = filtered
+	}
+
+	return nil
 }
 
 func keysStr(m map[string]bool) []string {
